@@ -142,7 +142,7 @@ def corr_idman(ck: Ck) -> None:
         part = cases[lo:lo + 500]
         lit = coq_list(f'(({coq_Z_list(ex)}, {coq_list(coq_op(o) for o in ops)}), {coq_Z_list(exp)})' for ops, exp, ex in part)
         exprs.append(f'bad_idx (fun c : (list Z * list op) * list Z => zl_eqb (run_res idman_lower_guard (init_from (fst (fst c))) (snd (fst c))) (snd c)) 0 {lit}')
-    res = eval_bad(ck, 'idman', PRE, exprs, per_call=12)
+    res = yield ('idman', PRE, exprs, 12)
     if res is None:
         ck.obligation('correspondence:idman', False, 'model could not be evaluated')
         ck.tie_broken.append('correspondence IDMan: model evaluation failed')
@@ -274,7 +274,7 @@ Fixpoint pl_eqb (a b : list (Z * Z)) : bool := match a, b with [], [] => true | 
         part = cases[lo:lo + 500]
         lit = coq_list(f'(({pairs(i)}, {coq_list(cop(o, v) for o, v in ops)}), {pairs(g)})' for i, ops, g in part)
         exprs.append(f'bad_idx (fun c : (list (Z * Z) * list fxop) * list (Z * Z) => pl_eqb (fx_run {rp} (fst c)) (snd c)) 0 {lit}')
-    res = eval_bad(ck, 'fixup', pre, exprs, per_call=12)
+    res = yield ('fixup', pre, exprs, 12)
     if res is None:
         ck.obligation('correspondence:fixup', False, 'model could not be evaluated')
         ck.tie_broken.append('correspondence EntityFixup: model evaluation failed')
@@ -705,19 +705,18 @@ Definition obs (w : world) : list Z := flat_map (fun o => [oid o; if alive o the
 Definition probe (w : world) : Z := match get_id (-1) (man w) with Some (i, _) => i | None => -3 end.
 Definition lrun' := lrun {rr}.
 '''
-    bad = []
-    from harness.common import parse_coq_N_list
+    exprs = []
     for lo in range(0, len(cases), 400):
         part = cases[lo:lo + 400]
         lit = coq_list('(%s, %s)' % (coq_list(evs), coq_Z_list([x for (i, a, m) in exp for x in (i, int(a), int(m))] + [probe]))
                        for evs, exp, probe in part)
-        vals = ck.coq_eval(IMPORTS, [f'bad_idx (fun c : list ev * list Z => zl_eqb (obs (lrun\' (fst c)) ++ [probe (lrun\' (fst c))]) (snd c)) 0 {lit}'],
-                           name='life', preamble=pre)
-        if vals is None:
-            ck.obligation('correspondence:lifecycle', False, 'model could not be evaluated')
-            ck.tie_broken.append('correspondence entity lifecycle: model evaluation failed')
-            return
-        bad += [lo + i for i in parse_coq_N_list(vals[0])]
+        exprs.append(f'bad_idx (fun c : list ev * list Z => zl_eqb (obs (lrun\' (fst c)) ++ [probe (lrun\' (fst c))]) (snd c)) 0 {lit}')
+    res = yield ('life', pre, exprs, 4)
+    if res is None:
+        ck.obligation('correspondence:lifecycle', False, 'model could not be evaluated')
+        ck.tie_broken.append('correspondence entity lifecycle: model evaluation failed')
+        return
+    bad = [c * 400 + i for c, idxs in enumerate(res) for i in idxs]
     ck.obligation('correspondence:lifecycle', not bad,
                   f'{len(cases)} entity histories, model lrun(release_on_remove={rr}) vs real VMF/Entity/gc: {len(bad)} disagreements')
     if bad:
@@ -1127,6 +1126,14 @@ def gen_world_case(rng: random.Random, n_ev: int, parse_prog: list[str] | None =
         from srctools.math import Matrix
         s, dest = rng.sample(range(3), 2)
         keep_vis = rng.random() < 0.45      # visgroup=True: the visgroup trees of the instance map are copied as well
+        # ... which is legal only while every visgroup ID the instance map's brushes and entities refer to is one of its listed
+        # visgroups (collapse_one looks each of them up); the histories unlist visgroups, so look first
+        refs: set = set()
+        for o in list(maps[s].brushes) + list(maps[s].entities) + [b for e in maps[s].entities for b in e.solids]:
+            refs |= set(o.visgroup_ids)
+        if not refs <= {v.id for v in _walk_vis(maps[s].vis_tree)}:
+            keep_vis = False
+        o = None
         # visgroup=<VisGroup of the destination map>: the copied trees become children of that visgroup (and brushes / entities
         # keep their visibility as with True)
         parent = None
@@ -1378,7 +1385,7 @@ def corr_world(ck: Ck, parse_prog: list[str] | None = None) -> None:
         lit = coq_list(f'({coq_list(t)}, (({coq_Z_list(e[0])}, {coq_Z_list(e[1])}), {coq_Z_list(e[2] + [-5] + e[3])}))' for t, e, _ in part)
         exprs.append('bad_idx (fun c : list tev * ((list Z * list Z) * list Z) => match tfull (fst c) with (a, b, f) => '
                      f'andb (andb (zl_eqb a (fst (fst (snd c)))) (zl_eqb b (snd (fst (snd c))))) (zl_eqb f (snd (snd c))) end) 0 {lit}')
-    res = eval_bad(ck, 'world', WORLD_PRE, exprs, per_call=6)
+    res = yield ('world', WORLD_PRE, exprs, 6)
     if res is None:
         ck.obligation('correspondence:world', False, 'model could not be evaluated')
         ck.obligation('correspondence:nested', False, 'model could not be evaluated')
@@ -1545,7 +1552,7 @@ def corr_nodes(ck: Ck) -> None:
     """Both node correspondences, evaluated by the same coqc processes."""
     ex1, fin1 = corr_node(ck)
     ex2, fin2 = corr_nodemaps(ck)
-    res = eval_bad(ck, 'node', NODE_PRE + NODEMAPS_PRE[len(PRE):], ex1 + ex2, per_call=6)
+    res = yield ('node', NODE_PRE + NODEMAPS_PRE[len(PRE):], ex1 + ex2, 6)
     fin1(None if res is None else res[:len(ex1)])
     fin2(None if res is None else res[len(ex1):])
 
@@ -1836,6 +1843,7 @@ def corr_parse(ck: Ck, parse_prog: list[str] | None = None) -> None:
     from srctools.keyvalues import Keyvalues
     n = ck.budget(150, 2000)
     cases = []
+    gc_begin()
     for i in range(n):
         text, want, wd = gen_vmf_doc(ck.rng)
         try:
@@ -1894,6 +1902,7 @@ def corr_parse(ck: Ck, parse_prog: list[str] | None = None) -> None:
             ck.violation(f'parse-then-allocate-{kind}-id-{what}', f'VMF.parse, then one new object of every kind: {kind} IDs {what}: {vals}',
                          {'vmf_text': text, 'how': 'VMF.parse(text); create_ent x2, make_prism + add_brush, spawn.copy(), entities[0].copy(), VisGroup, EntityGroup; scan incl. the worldspawn'})
         del extra, g_new
+    gc_end()
     ck.sample({'parsed_vmf_text': cases[-1][3][:600], 'desired_and_resulting_ids': {c[0]: (c[1], c[2]) for c in cases[-6:]}})
     bad = []
     wcases = [c for c in cases if c[0] != 'node']
@@ -1908,7 +1917,7 @@ def corr_parse(ck: Ck, parse_prog: list[str] | None = None) -> None:
         part = ncases[lo:lo + 400]
         lit = coq_list(f'({coq_list(evs)}, {coq_Z_list(got)})' for _, evs, got, _ in part)
         exprs.append(f'bad_idx (fun c : list nev * list Z => zl_eqb (nlive (fst c)) (snd c)) 0 {lit}')
-    res = eval_bad(ck, 'parse', PARSE_PRE, exprs, per_call=6)
+    res = yield ('parse', PARSE_PRE, exprs, 6)
     if res is None:
         ck.obligation('correspondence:parse', False, 'model could not be evaluated')
         ck.tie_broken.append('correspondence VMF.parse: model evaluation failed')
@@ -1941,7 +1950,18 @@ STAGE_LIMIT_S = int(__import__('os').environ.get('C08_STAGE_LIMIT_S', '420'))   
 _hung: list = []
 
 
-def guarded(ck: Ck, stage: str, fn, *args) -> None:
+_pending: list = []
+_POOL: list = []
+
+
+def _pool():
+    if not _POOL:
+        from concurrent.futures import ThreadPoolExecutor
+        _POOL.append(ThreadPoolExecutor(max_workers=3))
+    return _POOL[0]
+
+
+def guarded(ck: Ck, stage: str, fn, *args, resume=None) -> None:
     """Run one stage that calls into the implementation.  A fault can make the implementation raise where it never does, or
     loop for ever (the ID scan of IDMan.get_id, the index search of EntityFixup.__setitem__): both are failing inputs of this
     property's histories, reported as VIOLATION with the stage and seed as replay -- not as an internal error or a hung check.
@@ -1955,10 +1975,29 @@ def guarded(ck: Ck, stage: str, fn, *args) -> None:
     # repeating: an alarm that goes off inside a destructor is printed and ignored by CPython, the next one gets through
     signal.setitimer(signal.ITIMER_REAL, min(STAGE_LIMIT_S, 60) if _hung else STAGE_LIMIT_S, 5)
     import time
+    import inspect
     t0 = time.time()
     try:
-        fn(ck, *args)
-        ck.extra.setdefault('stage_seconds', {})[stage] = round(time.time() - t0, 1)
+        if resume is not None:
+            # second phase of a correspondence: the values of its Coq evaluation are there
+            gen, fut = resume
+            try:
+                gen.send(fut.result())
+            except StopIteration:
+                pass
+        elif inspect.isgeneratorfunction(fn):
+            # first phase: generate the cases on the implementation (main thread, `ck.rng` in stage order); the vm_compute evaluation
+            # the stage asks for runs in a worker thread (a coqc process) while the next stages generate theirs
+            gen = fn(ck, *args)
+            try:
+                req = next(gen)
+                _pending.append((stage, gen, _pool().submit(eval_bad, ck, *req)))
+            except StopIteration:
+                pass
+        else:
+            fn(ck, *args)
+        d = ck.extra.setdefault('stage_seconds', {})
+        d[stage] = round(d.get(stage, 0) + time.time() - t0, 1)
     except ImplHang as e:
         signal.setitimer(signal.ITIMER_REAL, 0)
         _hung.append(stage)
@@ -2010,8 +2049,16 @@ def run(ck: Ck) -> None:
     ok_t = ck.translate('IdSites_gen', c08_sites.translate)
     side = ck.extra.get('translated', {}).get('IdSites_gen', {})
     built = ok_t and ck.build(['Props/C08.vo'])
+    th = None
     if built:
-        ck.theorems('Props/C08.v')
+        # Print Assumptions of every statement of Props/C08.v takes a coqc process of its own (10-20 s on a loaded machine): it runs in
+        # a worker thread on a copy of `ck` with lists of its own, merged below at the position where the results belong.  The instance
+        # obligations stay in this thread: a failed one must escalate the budgets of the stages that follow.
+        import copy
+        ck_t = copy.copy(ck)
+        ck_t.obligations, ck_t.axioms, ck_t.tie_broken, ck_t.notes = [], {}, [], []
+        th_pos = len(ck.obligations)
+        th = _pool().submit(ck_t.theorems, 'Props/C08.v')
         res = ck.instance_obligations(IMPORTS, {
             'ent_released_only_by_destructor': 'negb (release_on_remove KEnt)',
             'solid_released_only_by_destructor': 'negb (release_on_remove KSolid)',
@@ -2046,6 +2093,15 @@ def run(ck: Ck) -> None:
         guarded(ck, 'node', corr_nodes)
         guarded(ck, 'parse', corr_parse, prog)
     guarded(ck, 'search', search_lifecycle)
+    if th is not None:
+        th.result()
+        ck.obligations[th_pos:th_pos] = ck_t.obligations
+        ck.axioms.update(ck_t.axioms)
+        ck.tie_broken += ck_t.tie_broken
+        ck.notes += ck_t.notes
+    for stage, gen, fut in _pending:
+        guarded(ck, stage, None, resume=(gen, fut))
+    del _pending[:]
     # Failed obligations are explained when the search exhibits a concrete history of the corresponding class.
     keys = {v['key'] for v in ck.violations}
 
